@@ -427,6 +427,9 @@ class Check:
             # something no longer checks: search for a concrete failing input with the wide generators
             sc = cfg.get("search", {"args": [], "seeds": 4})
             jobs = [(splitmix(self.seed, 100 + s), sc.get("args", []), f"search{s}") for s in range(sc.get("seeds", 4))]
+            # directed hunts (e.g. an exhaustive in-process comparison that writes only the disagreeing inputs to the trace)
+            for k, extra in enumerate(sc.get("also", [])):
+                jobs += [(splitmix(self.seed, 200 + 10 * k + s), extra.get("args", []), f"hunt{k}_{s}") for s in range(extra.get("seeds", 1))]
             with ThreadPoolExecutor(max_workers=cfg.get("parallel", 4)) as ex:
                 sres = list(ex.map(lambda j: self.run_one(*j), jobs))
             search_runs = len(sres)
